@@ -11,6 +11,7 @@ From Coq Require Import ZArith List Bool.
 From Alliance Require Import Num KMap Types Monad Model Step Spec Hoare WitnessLib.
 From Alliance.Witness Require Import F_C05_exit_insufficient_shares F_C05_exit_insufficient_tokens F_C05_exit_negative_coin F_C05_delegate_div_zero.
 From Alliance.Proofs Require Import Weights.
+From Alliance.Proofs Require Import FailureModes.
 Import ListNotations.
 Open Scope Z_scope.
 
@@ -37,3 +38,23 @@ Theorem C05_claim_before_start_partial : forall s del v vi dn a,
   claim_delegation_rewards del v vi dn s = Ok vi s.
 Proof. exact claim_before_start_is_noop. Qed.
 Print Assumptions C05_claim_before_start_partial.
+
+(* every way a user message can fail: exhaustive lists of the error / panic codes its call tree can end
+   with, in any state (no other code is possible).  The refusals the caller asked for: E_INVALID_ARG
+   (amount <= 0), E_NO_VALIDATOR, E_UNKNOWN_ASSET, E_NO_DELEGATION, E_SAME_VALIDATOR, E_TRANSITIVE,
+   E_INSUFFICIENT_SHARES / _TOKENS when more than the position holds is requested.  The others are the
+   listed liveness findings: E_INSUFFICIENT_FUNDS (reward pool short, F-C12-1), P_DIV_ZERO (zero-value
+   validator), P_NEG_COIN, E_INSUFFICIENT_SHARES / _TOKENS at the reported balance (rounding).
+   E_ORACLE is the harness contract (recorded withdrawals), not a code of the real module. *)
+Theorem C05_claim_failure_modes : forall del v dn, raises (fun e => In e claim_codes) (msg_claim del v dn).
+Proof. exact claim_failure_modes. Qed.
+Print Assumptions C05_claim_failure_modes.
+Theorem C05_delegate_failure_modes : forall del v dn amt, raises (fun e => In e delegate_codes) (msg_delegate del v dn amt).
+Proof. exact delegate_failure_modes. Qed.
+Print Assumptions C05_delegate_failure_modes.
+Theorem C05_undelegate_failure_modes : forall del v dn amt, raises (fun e => In e undelegate_codes) (msg_undelegate del v dn amt).
+Proof. exact undelegate_failure_modes. Qed.
+Print Assumptions C05_undelegate_failure_modes.
+Theorem C05_redelegate_failure_modes : forall del src dst dn amt, raises (fun e => In e redelegate_codes) (msg_redelegate del src dst dn amt).
+Proof. exact redelegate_failure_modes. Qed.
+Print Assumptions C05_redelegate_failure_modes.
